@@ -10,6 +10,11 @@ the missing keys with their once-formatted value; every incoming mapping deep-eq
 its snapshot after its own AND after every later operation; a step leaves the context exactly as
 Context.merge / set_defaults of context[key] on a deep copy of the same context does. Any exception of the
 implementation (RecursionError included) is an observation, a call that does not return within 10 s a failure.
+Containers may be instances of the numbered classes (frozenset, set / list / tuple / dict subclasses, ruamel's
+CommentedMap / CommentedSeq, OrderedDict) on either side in every combination (`are_all_this_type` is isinstance);
+counters `combo:<kind>:<existing class><-<incoming class>` show which pairs reached a mergeable branch. For single
+merge / set_defaults calls the model's ghost trace is compared with the named paths read off the incoming mapping on
+the harness side with the real formatter (`impl_c10.flat_named`).
 """
 from .. import common
 from .. import impl_c10 as I
@@ -37,12 +42,15 @@ MODEL_OP = {'merge': 'merge.merge', 'defaults': 'merge.defaults', 'step-merge': 
 
 
 def request(case):
+    """the tree-level request: the model there has no classes (class wrappers stripped)"""
     op = case['op']
+    ctx = I.strip_cls(case['ctx'])
     if op == 'seq':
-        return 'merge.seq', {'ctx': case['ctx'], 'ops': case['ops']}
+        return 'merge.seq', {'ctx': ctx, 'ops': [dict(o, add=I.strip_cls(o['add'])) if 'add' in o else o
+                                                 for o in case['ops']]}
     if op in ('merge', 'defaults'):
-        return MODEL_OP[op], {'ctx': case['ctx'], 'add': case['add']}
-    return 'merge.step', {'ctx': case['ctx'], 'which': 'contextmerge' if op == 'step-merge' else 'default'}
+        return MODEL_OP[op], {'ctx': ctx, 'add': I.strip_cls(case['add'])}
+    return 'merge.step', {'ctx': ctx, 'which': 'contextmerge' if op == 'step-merge' else 'default'}
 
 
 def check_heap(env, res, todo):
@@ -97,6 +105,9 @@ def check_cases(env, res, cases, known_sig=None):
     for case, mout in zip(cases, outs):
         iobs, fails = I.run_impl(case)
         hp = iobs.pop('heap', None)
+        for combo in iobs.pop('combos', []):
+            res.count('combo:' + combo)
+        named = iobs.pop('named', None)
         if known_sig is None and hp is not None:
             if 'skip' in hp:
                 res.count('heap-skipped:' + hp['skip'])
@@ -123,6 +134,14 @@ def check_cases(env, res, cases, known_sig=None):
             mobs = {'ok': canon_wire(mout['ok']['ctx'])}
             for w in mout['ok']['trace']:
                 res.count('trace:' + ('write' if w[1] else 'descend') + f':depth{len(w[0])}')
+            # the model's ghost trace against the named paths read off the incoming mapping with the REAL formatter
+            # (harness-side `named_tree`: key formatted, descent iff mapping into mapping, defaults: existing -> none)
+            if named is not None and not seq:
+                mtrace = [[[canon_wire(k) for k in w[0]], w[1]] for w in mout['ok']['trace']]
+                res.count('trace:compared-with-named-paths')
+                if mtrace != named:
+                    res.mismatch(case, {'trace': mtrace}, {'named': named},
+                                 'the model trace is not the list of named paths of the incoming mapping')
         else:
             # divergence class: a self-referential expression ('{{b}}' stored as '{b}' under b by an earlier
             # operation) recurses until RecursionError; the model runs out of fuel
@@ -143,16 +162,20 @@ def run(env, res):
                 'earlier entry writes) x 4 operations; SEQUENCES of 2-4 operations on one context: accumulator '
                 'initialisers ([] {} set() () \'\' 0 None False b\'\' and small non-empty ones) at depth 1-3 x first '
                 'operation x second operation + growth by a third, key / value expressions re-resolved after the key '
-                'they refer to was rebound in between; random: context tree + incoming tree derived from it with '
+                'they refer to was rebound in between; class family: every pair of classes of one kind (set / frozenset / '
+                'MySet; tuple / MyTuple; list / CommentedSeq / MyList; dict / CommentedMap / OrderedDict / MyDict) as '
+                'existing x incoming value, both non-empty / existing empty / incoming empty, merge at depth 1-2, '
+                'set_defaults, step; kind clashes between subclasses; random: context tree + incoming tree derived from it with '
                 'expressions referring to keys merged earlier in the same call, 45 % as sequences whose later incoming '
-                'mappings are derived from earlier ones; non-trivial = distinct case that reached both sides; every '
+                'mappings are derived from earlier ones, 40 % with random classes on the containers at value positions; '
+                'non-trivial = distinct case that reached both sides; every '
                 'case also through the heap-level model; alias streams: monitors only (known findings)')
     for case, sig in I.alias_cases():
         check_cases(env, res, [case], known_sig=sig)
     directed = I.directed_cases()
     for i in range(0, len(directed), 500):
         check_cases(env, res, directed[i:i + 500])
-    n = env.n(3000, 40000)
+    n = env.n(2800, 40000)
     batch = []
     for _ in range(n):
         batch.append(I.random_case(env.rng))
